@@ -30,40 +30,55 @@ func raceJobs() []c11Job {
 	return jobs
 }
 
-// racePass is the body of `check racepass` (run in the -race binary).
+// racePass is the body of `check racepass` (run in the -race binary). The goroutines start together on a cold process —
+// nothing of the library has run yet, so lazily built package-level state (tables, caches, pools) is first touched
+// concurrently; the sequential baselines are computed afterwards. VERIF_RACE_ROT rotates which pipeline every goroutine
+// starts with, so that several cold starts meet different first uses.
 func racePass() int {
 	verifhook.Point, verifhook.Tick = nil, nil
 	drive.SetBlockSize(drive.ProdBlock)
 	jobs := raceJobs()
-	base := make([]string, len(jobs))
-	for i, j := range jobs {
-		base[i] = c11Pipeline(nil, j, c11Full)
-	}
+	rot := 0
+	fmt.Sscanf(os.Getenv("VERIF_RACE_ROT"), "%d", &rot)
 	const G, rounds = 16, 6
+	type obs struct {
+		job int
+		h   uint64
+	}
+	outs := make([][]obs, G)
+	start := make(chan struct{})
 	var wg sync.WaitGroup
-	var mu sync.Mutex
-	bad := 0
 	for g := 0; g < G; g++ {
 		wg.Add(1)
 		go func(g int) {
 			defer wg.Done()
+			<-start
 			for r := 0; r < rounds; r++ {
 				for k := range jobs {
-					i := (k*7 + g*13 + r) % len(jobs)
-					if out := c11Pipeline(nil, jobs[i], c11Full); out != base[i] {
-						mu.Lock()
-						bad++
-						if bad <= 3 {
-							fmt.Printf("DIFF job %d (%q): %s\n", i, jobs[i].Src, firstDiffStr(base[i], out))
-						}
-						mu.Unlock()
-					}
+					i := (k*7 + g*13 + r + rot*5) % len(jobs)
+					outs[g] = append(outs[g], obs{i, core.Hash(c11Pipeline(nil, jobs[i], c11Full))})
 				}
 			}
 		}(g)
 	}
+	close(start)
 	wg.Wait()
-	fmt.Printf("racepass: %d goroutines x %d rounds x %d pipelines, %d results differ from the sequential baseline\n", G, rounds, len(jobs), bad)
+	base := make([]uint64, len(jobs))
+	for i, j := range jobs {
+		base[i] = core.Hash(c11Pipeline(nil, j, c11Full))
+	}
+	bad := 0
+	for g := range outs {
+		for _, o := range outs[g] {
+			if o.h != base[o.job] {
+				bad++
+				if bad <= 3 {
+					fmt.Printf("DIFF job %d (%q): the result on goroutine %d differs from the sequential result\n", o.job, jobs[o.job].Src, g)
+				}
+			}
+		}
+	}
+	fmt.Printf("racepass: cold start, %d goroutines x %d rounds x %d pipelines (rotation %d), %d results differ from the sequential baseline\n", G, rounds, len(jobs), rot, bad)
 	if bad > 0 {
 		return 1
 	}
@@ -77,11 +92,27 @@ func runRacePass(c *core.Ctx) {
 		c.Note("race pass skipped: no -race binary (VERIF_RACE_BIN unset)")
 		return
 	}
-	cmd := exec.Command(bin, "racepass")
-	cmd.Env = append(os.Environ(), "GORACE=halt_on_error=0 exitcode=0", "GOMAXPROCS=16", "VERIF_WORKER=")
-	out, err := cmd.CombinedOutput()
-	s := string(out)
-	c.Stat("race_pass_runs", 1)
+	runs := 4
+	if c.Thorough() {
+		runs = 16
+	}
+	s := ""
+	var err error
+	for rot := 0; rot < runs; rot++ {
+		cmd := exec.Command(bin, "racepass")
+		cmd.Env = append(os.Environ(), "GORACE=halt_on_error=0 exitcode=0", "GOMAXPROCS=16", "VERIF_WORKER=", fmt.Sprintf("VERIF_RACE_ROT=%d", rot))
+		out, e := cmd.CombinedOutput()
+		if e != nil && !strings.Contains(string(out), "racepass:") {
+			// the process died (the runtime aborts on concurrent map access): that is a result, not a harness problem
+			if strings.Contains(string(out), "fatal error: concurrent map") {
+				c.Report("free-running goroutines: the Go runtime aborts the process (concurrent map access)", clipS(string(out), 600), nil)
+			}
+			err = e
+		}
+		s += string(out)
+		c.Stat("race_pass_runs", 1)
+		c.Touch()
+	}
 	if n := strings.Count(s, "WARNING: DATA RACE"); n > 0 {
 		i := strings.Index(s, "WARNING: DATA RACE")
 		c.Report("data race reported by the race detector (free-running pass): "+raceSite(s[i:]), clipS(s[i:], 900), nil)
